@@ -379,8 +379,72 @@ func RunConc(s *kernel.Sim, prof *Profile, free bool) *Env {
 
 	if free {
 		e.judgeAuditFile(auditPath, ops)
+		e.auditFileSharing()
 	}
 	return e
+}
+
+// auditFileSharing: the audit log is an O_APPEND file, so (a) two writers on
+// the same path - an old and a new server overlapping during a restart - and
+// (b) an operator truncating the log while it is open (copytruncate rotation)
+// must not make records overwrite each other or land behind a hole.
+func (e *Env) auditFileSharing() {
+	if !e.Prof.Oracles["audit-file"] {
+		return
+	}
+	p := filepath.Join(e.Dir, "shared-audit.log")
+	w1, err1 := audit.NewFile(p)
+	w2, err2 := audit.NewFile(p)
+	if err1 != nil || err2 != nil {
+		return
+	}
+	const n = 40
+	var wg sync.WaitGroup
+	for i, w := range []*audit.Writer{w1, w2} {
+		wg.Add(1)
+		go func(i int, w *audit.Writer) {
+			defer wg.Done()
+			for k := 0; k < n; k++ {
+				w.WriteEntries(&audit.Entry{Action: "get", Secret: fmt.Sprintf("w%d-%d", i, k), Authorized: true})
+			}
+		}(i, w)
+	}
+	wg.Wait()
+	count := func() (whole int, bad string) {
+		b, _ := os.ReadFile(p)
+		for _, line := range bytes.Split(bytes.TrimRight(b, "\n"), []byte("\n")) {
+			var l auditLine
+			if len(line) == 0 {
+				continue
+			}
+			if json.Unmarshal(line, &l) != nil || l.Authorized == nil {
+				return whole, string(trunc80(line))
+			}
+			whole++
+		}
+		return whole, ""
+	}
+	if got, bad := count(); bad != "" || got != 2*n {
+		e.fail("audit-file", "two writers appended %d records to one audit file; it holds %d whole records (first damaged line: %q)", 2*n, got, bad)
+	}
+	// copytruncate rotation while the log is open
+	os.Truncate(p, 0)
+	for k := 0; k < 3; k++ {
+		w1.WriteEntries(&audit.Entry{Action: "get", Secret: fmt.Sprintf("after-truncate-%d", k), Authorized: true})
+	}
+	if got, bad := count(); bad != "" || got != 3 {
+		e.fail("audit-file", "after the log was truncated while open, 3 records were written; the file holds %d whole records (first damaged line: %q)", got, bad)
+	}
+	w1.Close()
+	w2.Close()
+	e.S.Probe("audit-file-sharing-checked")
+}
+
+func trunc80(b []byte) []byte {
+	if len(b) > 80 {
+		return b[:80]
+	}
+	return b
 }
 
 func joinLines(l []string) string {
